@@ -72,6 +72,9 @@ func mYServer(conn io.ReadWriteCloser, c *yamux.Config) (*yamux.Session, error) 
 
 var wHandshakeFailures int
 
+// one-way latency of a request on a connection (0 unless a harness sets it): lets a crash fall INSIDE an operation
+var wNetDelay int64
+
 func wOpen(s *yamux.Session) (*yamux.Stream, error) {
 	g := wSessG[s]
 	if g.closed || g.raw.dead() {
@@ -340,6 +343,12 @@ func mRPCCall(c *rpc.Client, serviceMethod string, args any, reply any) error {
 	}
 	req := &wRPCReq{method: serviceMethod, args: vClone(args), reply: vNewLike(reply), done: make(chan error, 1)}
 	raw := g.rawConn()
+	if wNetDelay > 0 { // the request takes time to travel: the peer may die meanwhile
+		vSleepUntil(vNow() + wNetDelay)
+		if g.gone() {
+			return io.ErrUnexpectedEOF
+		}
+	}
 	select {
 	case g.peer.reqQ <- req:
 	default:
